@@ -77,10 +77,12 @@ Section Path.
        (is_mark (pack cf author (b_tick b)) = false -> 0 <= tp cf (pack cf author (b_tick b)) <= T) ->
        (is_mark (pack cf author (b_tick b)) = false -> forall l, In l seq -> o l = true -> is_mark (ov l) = false ->
           0 <= tp cf (ov l) <= tp cf (pack cf author (b_tick b))) ->
-       gh_ok T (s_gh s')).
+       gh_ok T (s_gh s')) /\
+    b_merged b' = (if (b_tick b =? mark) && touched A last c seq then aset (b_merged b) p true else b_merged b) /\
+    b_mauthor b' = b_mauthor b.
   Proof.
     set (t := pack cf author (b_tick b)).
-    intros Hg Hmono E. unfold change_of_path in E.
+    intros Hg Hmono E. unfold change_of_path in E. unfold touched.
     destruct (old_exists A last seq) eqn:Eold, (path_exists A c seq) eqn:Enew.
     - (* both exist *)
       destruct Hg as [hd Hf]. cbn [pgood] in *.
@@ -94,7 +96,7 @@ Section Path.
         { exists hd. rewrite Hf. f_equal. f_equal. rewrite (filter_ext_in _ _ seq Hon).
           apply map_ext_in. intros l Hin. apply filter_In in Hin. destruct Hin as [Hin Hn].
           unfold nv. rewrite (Hon l Hin), Hn. reflexivity. }
-        split; [auto|]. split; [auto|]. split; [|auto]. intros P.
+        split; [auto|]. split; [auto|]. split; [|split; [auto|split; [rewrite andb_false_r; reflexivity|reflexivity]]]. intros P.
         rewrite cntI_zero by (intros l Hin; rewrite (Hon l Hin); destruct (n l); reflexivity).
         rewrite deadv_nil by (intros l Hin; rewrite (Hon l Hin); destruct (n l); reflexivity).
         rewrite eff_0. unfold effs. cbn. lia.
@@ -122,9 +124,12 @@ Section Path.
           destruct (Z.eqb_spec p p'); [congruence|reflexivity]. }
         split; [exact Hb0t|]. split.
         { intros P. rewrite R3. cbn [app]. replace (0 + cntI o n seq) with (cntI o n seq) by lia. reflexivity. }
-        intros T Hok HtT Hvals. apply (run_hunks_ok cf t T HtT _ _ _ _ _ _ E2); auto.
-        intros Hm v Hin Hmv. unfold f0 in Hin. cbn [f_vals] in Hin. apply in_map_iff in Hin.
-        destruct Hin as (l & <- & Hl). apply filter_In in Hl. apply Hvals; tauto.
+        split; [|split].
+        { intros T Hok HtT Hvals. apply (run_hunks_ok cf t T HtT _ _ _ _ _ _ E2); auto.
+          intros Hm v Hin Hmv. unfold f0 in Hin. cbn [f_vals] in Hin. apply in_map_iff in Hin.
+          destruct Hin as (l & <- & Hl). apply filter_In in Hl. apply Hvals; tauto. }
+        { unfold with_files. cbn [b_merged negb]. rewrite andb_true_r. unfold b0. destruct (b_tick b =? mark); reflexivity. }
+        { unfold with_files. cbn [b_mauthor]. unfold b0. destruct (b_tick b =? mark); reflexivity. }
     - (* the path disappears: excluded *)
       specialize (Hmono eq_refl). discriminate.
     - (* a new path *)
@@ -141,9 +146,11 @@ Section Path.
       destruct (update_time cf hd s0 t t _) as [s2| |] eqn:E2; try discriminate.
       assert (Ho : forall l, In l seq -> o l = false) by (apply old_not_exists; auto).
       set (b2 := with_files b (aset (b_files b) p (mkFile (repeat t (Z.to_nat (Z.of_nat (length (content A c seq))))) hd))) in *.
-      assert (Hb1 : b_files b1 = b_files b2 /\ b_tick b1 = b_tick b /\ s_gh s1 = s_gh s2).
-      { destruct (b_tick b =? mark); injection E1 as <- <-; auto. }
-      destruct Hb1 as (Hb1f & Hb1t & Hs1). rewrite Hb1f. unfold b2, with_files. cbn [b_files].
+      assert (Hb1 : b_files b1 = b_files b2 /\ b_tick b1 = b_tick b /\ s_gh s1 = s_gh s2 /\
+                    b_merged b1 = (if (b_tick b =? mark) && true then aset (b_merged b) p true else b_merged b) /\
+                    b_mauthor b1 = b_mauthor b).
+      { destruct (b_tick b =? mark); injection E1 as <- <-; auto 6. }
+      destruct Hb1 as (Hb1f & Hb1t & Hs1 & Hb1m & Hb1a). rewrite Hb1f. unfold b2, with_files. cbn [b_files].
       split.
       { cbn [pgood]. exists hd. rewrite aget_aset, Z.eqb_refl. f_equal. f_equal. rewrite Nat2Z.id.
         unfold content. rewrite <- map_const_repeat. apply map_ext_in. intros l Hin.
@@ -156,17 +163,21 @@ Section Path.
         assert (Ecnt : cntI o n seq = Z.of_nat (length (content A c seq))).
         { unfold cntI, count, content. f_equal. f_equal. apply filter_ext_in. intros l Hin. rewrite (Ho l Hin). reflexivity. }
         rewrite Ecnt. unfold effs. cbn. lia. }
+      split; [|split; [exact Hb1m|exact Hb1a]].
       intros T Hok HtT _. rewrite Hs1. eapply update_time_ok; eauto; [|rewrite Hgh; exact Hok].
       intros Hm _. specialize (HtT Hm). lia.
     - (* absent before and after *)
       cbn [pgood] in *. cbn [handle_changes] in E. injection E as <- <-.
       assert (Ho : forall l, In l seq -> o l = false) by (apply old_not_exists; auto).
       assert (Hn : forall l, In l seq -> n l = false) by (apply new_not_exists; auto).
-      split; auto. split; auto. split; auto. split; [|auto]. intros P.
+      split; auto. split; auto. split; auto. split; [|split; [auto|split; [rewrite andb_false_r; reflexivity|reflexivity]]]. intros P.
       rewrite cntI_zero by (intros l Hin; rewrite (Hn l Hin); apply andb_false_r).
       rewrite deadv_nil by (intros l Hin; rewrite (Ho l Hin); reflexivity).
       rewrite eff_0. unfold effs. cbn. lia.
   Qed.
+
+  Definition merged_after (tick : Z) (paths : list (Z * list line)) (m0 : list (Z * bool)) : list (Z * bool) :=
+    fold_left (fun m pl => if (tick =? mark) && touched A last c (snd pl) then aset m (fst pl) true else m) paths m0.
 
   (* all paths of the history *)
   Lemma paths_step : forall paths b s b' s',
@@ -185,7 +196,8 @@ Section Path.
        (is_mark (pack cf author (b_tick b)) = false -> 0 <= tp cf (pack cf author (b_tick b)) <= T) ->
        (is_mark (pack cf author (b_tick b)) = false -> forall pl l, In pl paths -> In l (snd pl) -> o l = true ->
           is_mark (ov l) = false -> 0 <= tp cf (ov l) <= tp cf (pack cf author (b_tick b))) ->
-       gh_ok T (s_gh s')).
+       gh_ok T (s_gh s')) /\
+    b_merged b' = merged_after (b_tick b) paths (b_merged b) /\ b_mauthor b' = b_mauthor b.
   Proof.
     induction paths as [|[p seq] paths IH]; intros b s b' s' Hnd Hg Hmono E.
     - cbn in E. injection E as <- <-. split; [intros ? []|]. split; auto. split; auto. split; [|auto].
@@ -194,7 +206,7 @@ Section Path.
       destruct (handle_changes cf author (change_of_path A last c p seq) b s) as [[b1 s1]| |] eqn:E1; try discriminate.
       inversion Hnd as [|? ? Hnotin Hnd']; subst.
       destruct (path_step b s p seq b1 s1 (Hg (p, seq) (or_introl eq_refl)) (Hmono (p, seq) (or_introl eq_refl)) E1)
-        as (P1 & P2 & P3 & P4 & P5).
+        as (P1 & P2 & P3 & P4 & P5 & P6 & P7).
       assert (Hg1 : forall pl, In pl paths -> pgood (old_exists A last (snd pl)) o ov (b_files b1) (fst pl) (snd pl)).
       { intros pl Hin. pose proof (Hg pl (or_intror Hin)) as Hpl. unfold pgood in *.
         assert (Hne : fst pl <> p).
@@ -202,8 +214,8 @@ Section Path.
         rewrite (P2 (fst pl) Hne). exact Hpl. }
       assert (Hm1 : forall pl, In pl paths -> old_exists A last (snd pl) = true -> path_exists A c (snd pl) = true).
       { intros pl Hin. apply Hmono. right; auto. }
-      destruct (IH b1 s1 b' s' Hnd' Hg1 Hm1 E) as (Q1 & Q2 & Q3 & Q4 & Q5).
-      rewrite P3 in Q1, Q3, Q4, Q5.
+      destruct (IH b1 s1 b' s' Hnd' Hg1 Hm1 E) as (Q1 & Q2 & Q3 & Q4 & Q5 & Q6 & Q7).
+      rewrite P3 in Q1, Q3, Q4, Q5, Q6.
       split.
       { intros pl [<-|Hin]; [|apply Q1; auto]. cbn [fst snd]. unfold pgood in *.
         rewrite (Q2 p Hnotin). exact P1. }
@@ -212,6 +224,7 @@ Section Path.
         apply P2. intros ->. apply Hn. left; reflexivity. }
       split; [lia|]. split.
       { intros P. rewrite Q4, P4. cbn [map flat_map snd]. rewrite sum_z_cons, effs_app, <- eff_add. lia. }
+      split; [|split; [rewrite Q6, P6; reflexivity|congruence]].
       intros T Hok HtT Hvals. apply Q5; auto.
       + apply (P5 T Hok HtT). intros Hm l Hl Ho Hmv. exact (Hvals Hm (p, seq) l (or_introl eq_refl) Hl Ho Hmv).
       + intros Hm pl l Hpl Hl Ho Hmv. apply (Hvals Hm pl l (or_intror Hpl) Hl Ho Hmv).
